@@ -111,6 +111,7 @@ func C15(c *run.Ctx) int {
 	})
 	c15Templates(c)
 	c15EntryGraph(c)
+	c15Nested(c)
 	return c.Finish("generated compute programs in the hostile profile (unguarded dynamic indices from buffer data for the lanes with an index policy, raw shift amounts, raw float->int conversions, run-time divisors, reads of variables without initialiser) x boundary-biased 32-bit inputs, plus multi-entry-point modules (2-4 compute entry points, random acyclic helper call graphs with diamonds and shared helpers, helpers reading var<workgroup> scalars / arrays / atomics / structs before any write) where every entry point is executed through SPIR-V 1.0/1.3/1.4/1.5, HLSL, MSL and GLSL and compared with the values zero-initialised workgroup memory gives; one lane per backend with its protective options: SPIR-V (default wrappers, zero initialisation), MSL (Index/Buffer policy Restrict and ReadZeroSkipWrite), HLSL (RestrictIndexing, workgroup zero-init), GLSL (operators only: no index policy exists); the emitted code runs in the target interpreter in trap mode (out-of-object access, poison read, division by zero / INT_MIN/-1, out-of-range conversion, oversized shift are traps) and every output leaf is compared with wref evaluating the same policy; plus access-path templates (atomic read-modify-write through an array of structs and an array of atomics, in storage and workgroup memory) with hostile values for both indices, whose expected memory image is computed from the policy; "+
 		"distinct = distinct (lane, generator features, interpreter operation kinds executed); non-trivial = an output leaf changed and was compared",
 		[]string{"restrict = index clamped to the last element (unsigned), rzsw = out-of-range reads give zero and writes are dropped, as the property states", "interpreters model memory without initialiser as poison, so a missing zero-initialisation is observed as a poison-read trap"})
